@@ -16,7 +16,7 @@ ASSUMPTIONS = ["rows are identified by a unique rid column; which rows a removed
 CASE_TIMEOUT = 120
 
 
-def _frame(rng, rid0, n, nparts, same_domain=False, cat_partition=False):
+def _frame(rng, rid0, n, nparts, same_domain=False, cat_partition=False, key_kinds=None):
     import pandas as pd
     d = {"rid": np.arange(rid0, rid0 + n, dtype="int64"),
          "v0": rng.integers(-1000, 1000, n).astype("int64"),
@@ -25,6 +25,13 @@ def _frame(rng, rid0, n, nparts, same_domain=False, cat_partition=False):
         d["p0"] = np.array(["a", "b", "c", "d"], dtype=object)[rng.integers(0, 4, n)] if not same_domain else rng.integers(0, 3, n).astype("int64")
     if nparts >= 2:
         d["p1"] = rng.integers(0, 3, n).astype("int64")
+    if key_kinds:
+        # keys of other kinds: timestamps (directories in ISO format), floats next to integers, booleans
+        pools = {"dt": np.array(["2020-01-01", "2020-01-02", "1999-12-31T23:59:59"], dtype="M8[ns]"), "float": np.array([0.5, 1.0, -2.25]),
+                 "int": np.array([1, 2, 30], dtype="int64"), "bool": np.array([True, False])}
+        for name_, kk in zip(["p0", "p1"][:nparts], key_kinds):
+            pool = pools[kk]
+            d[name_] = pool[rng.integers(0, len(pool), n)]
     df = pd.DataFrame(d)
     if cat_partition and nparts >= 1 and not same_domain:
         # a categorical key: groupby(observed=False) yields a group for every category / combination, present or not
@@ -61,6 +68,9 @@ def gen_cases(tier, seed):
                       # directory nesting order other than the frame's column order; both key columns over the same values
                       "nesting_reversed": bool(nparts == 2 and i % 4 in (1, 2)), "same_domain": bool(nparts == 2 and i % 8 in (1, 5)),
                       "cat_partition": bool(nparts >= 1 and i % 5 == 3)})
+        if nparts and i % 7 == 4:
+            cases[-1]["key_kinds"] = [["dt", "float"], ["int", "float"], ["bool", "dt"], ["float", "int"]][(i // 7) % 4][:nparts]
+            cases[-1]["same_domain"] = cases[-1]["cat_partition"] = False
     return cases
 
 
@@ -162,7 +172,7 @@ def run_case(case):
     res = {"features": [], "nontrivial": False, "failures": [], "counters": counters}
     try:
         rng0 = np.random.default_rng([case["init_seed"], 1])
-        df = _frame(rng0, 0, case["init_rows"], nparts, case.get("same_domain", False), case.get("cat_partition", False))
+        df = _frame(rng0, 0, case["init_rows"], nparts, case.get("same_domain", False), case.get("cat_partition", False), case.get("key_kinds"))
         kw = {"file_scheme": "hive"}
         if pcols:
             kw["partition_on"] = pcols
@@ -193,7 +203,7 @@ def run_case(case):
             with fsmon.Audit(path) as aud:
                 try:
                     if k == "append":
-                        new = _frame(rng, next_rid, op["rows"], nparts, case.get("same_domain", False), case.get("cat_partition", False))
+                        new = _frame(rng, next_rid, op["rows"], nparts, case.get("same_domain", False), case.get("cat_partition", False), case.get("key_kinds"))
                         next_rid += len(new)
                         kw = {"file_scheme": "hive", "append": True}
                         if pcols:
@@ -205,7 +215,7 @@ def run_case(case):
                         model |= set(new["rid"].tolist())
                         pf = None
                     elif k == "overwrite":
-                        new = _frame(rng, next_rid, op["rows"], nparts, case.get("same_domain", False), case.get("cat_partition", False))
+                        new = _frame(rng, next_rid, op["rows"], nparts, case.get("same_domain", False), case.get("cat_partition", False), case.get("key_kinds"))
                         next_rid += len(new)
                         # restrict new data to a few partitions so that others must stay untouched
                         keys = sorted(set(new["p0"]))[:op["keys"]]
@@ -246,7 +256,7 @@ def run_case(case):
                         pf.remove_row_groups([pf.row_groups[i] for i in sel], sort_pnames=op["sort_pnames"])
                         model -= removed
                     elif k == "write_rgs":
-                        new = _frame(rng, next_rid, op["rows"], nparts, case.get("same_domain", False), case.get("cat_partition", False))
+                        new = _frame(rng, next_rid, op["rows"], nparts, case.get("same_domain", False), case.get("cat_partition", False), case.get("key_kinds"))
                         next_rid += len(new)
                         sk = {None: None, "path": (lambda rg: rg.columns[0].file_path), "nrows_desc": (lambda rg: -rg.num_rows),
                               "rid": (lambda rg: int.from_bytes(rg.columns[0].meta_data.statistics.min or b"\0", "little", signed=True)
